@@ -184,6 +184,28 @@ pub fn run_bin(dir: &Path, args: &[String]) -> RunOut {
     RunOut { status: out.status.code(), stdout: out.stdout, dump: std::fs::read_to_string(&dump).unwrap_or_default() }
 }
 
+pub fn run_bin_stdin(dir: &Path, args: &[String], input: &[u8]) -> RunOut {
+    use std::io::Write;
+    let dump = dir.join("dump.txt");
+    let _ = std::fs::remove_file(&dump);
+    let mut child = Command::new(bin_path())
+        .args(args)
+        .current_dir(dir)
+        .env("OXIPNG_VERIF_DUMP", &dump)
+        .env("RUST_LOG", "off")
+        .stdin(std::process::Stdio::piped())
+        .stdout(std::process::Stdio::piped())
+        .stderr(std::process::Stdio::null())
+        .spawn()
+        .expect("cannot run the oxipng binary");
+    {
+        let mut si = child.stdin.take().unwrap();
+        let _ = si.write_all(input);
+    }
+    let out = child.wait_with_output().expect("wait");
+    RunOut { status: out.status.code(), stdout: out.stdout, dump: std::fs::read_to_string(&dump).unwrap_or_default() }
+}
+
 pub fn corr(ctx: &mut Ctx) {
     let mut rng = Rng::new(ctx.seed ^ 0xC11);
     let mut st = Stats::default();
@@ -373,6 +395,44 @@ pub fn oracle(ctx: &mut Ctx) {
             None => { st.count("routing_ok"); if improved { st.count("improved"); } }
         }
         if i < 2 { st.sample(format!("oxipng {}", args.join(" "))); }
+    }
+    // ---- standard input: `oxipng -` delivers on standard output (or where an option says), improvable or not ----
+    for _ in 0..(ctx.n / 6).max(12) {
+        let w = dir.join("w");
+        let _ = std::fs::remove_dir_all(&w);
+        std::fs::create_dir_all(&w).unwrap();
+        let case = gen_case(&mut rng, Profile::Any, false, 9);
+        let fv = gen_flags(&mut rng);
+        // the options this flag vector means (dump of a pretend run)
+        let mut probe = fv.args.clone();
+        probe.extend(["-q".to_string(), "-P".to_string(), "-".to_string()]);
+        let pr = run_bin_stdin(&w, &probe, &case.input);
+        let Some((_, o)) = canon_dump(&pr.dump) else { st.count("stdin_flags_rejected"); continue; };
+        let Some(lib0) = lib_expected(&case.input, &o) else { st.count("library_error"); continue; };
+        // half of the time feed a file that these options cannot improve any more
+        let input = if rng.bool() && !o.force { lib0.clone() } else { case.input.clone() };
+        let Some(lib) = lib_expected(&input, &o) else { st.count("library_error"); continue; };
+        if lib == input { st.count("stdin_not_improvable"); } else { st.count("stdin_improvable"); }
+        let explicit = rng.below(3); // 0: nothing (implicit stdout), 1: --stdout, 2: --out file
+        let mut args = fv.args.clone();
+        args.push("-q".into());
+        match explicit { 1 => args.push("--stdout".into()), 2 => { args.push("--out".into()); args.push("o.png".into()); } _ => {} }
+        args.push("-".into());
+        let r = run_bin_stdin(&w, &args, &input);
+        let replay = format!("{{\"args\": {}, \"stdin_png_hex\": {}}}", jstr(&args.join(" ")), jstr(&hex(&input)));
+        st.count("stdin_cases");
+        if r.status != Some(0) {
+            st.fail("exit-status", format!("exit status {:?} for standard input that was processed successfully ({})", r.status, args.join(" ")), replay);
+            continue;
+        }
+        let delivered = if explicit == 2 { std::fs::read(w.join("o.png")).unwrap_or_default() } else { r.stdout.clone() };
+        if delivered != lib {
+            st.fail("routing", format!("standard input: {} bytes delivered, the library's result has {} ({})", delivered.len(), lib.len(), args.join(" ")), replay);
+        } else if explicit == 2 && !r.stdout.is_empty() {
+            st.fail("routing", format!("bytes on standard output although --out was given ({})", args.join(" ")), replay);
+        } else {
+            st.count("stdin_ok");
+        }
     }
     // ---- exit status over file sets, and directory recursion ---------------------------------
     for round in 0..(ctx.n / 10).max(6) {
